@@ -198,6 +198,64 @@ class Expander:
             self.emit('#[derive(%s)]' % kv['keep_derive'])
         self.emit(text)
 
+    def do_auto_setters(self, kv):
+        """rule E7: methods of a (local) impl that have no contract in the template and consist only of assignments to fields
+        of `self` (`self.f = e;`, `self.f += e;`, `self.f -= e;` with e over literals and fields of self) get the contract
+        that their text determines: one `ensures` per assigned field (symbolic execution of the statements in order), the
+        other fields unchanged, and `requires` that no `+=` / `-=` leaves the field's type.  Any other uncontracted method
+        makes the unit UNDECIDED (a caller cannot be decided against a callee without contract)."""
+        s = self.src(kv['file'], kv.get('within'))
+        norm = lambda t: re.sub(r'\s+', ' ', t).strip()
+        impl = None
+        for k, header, hs, bo, bc in s.top_items():
+            if k == 'impl' and norm(header) == norm(kv['impl']):
+                impl = (bo, bc)
+        if impl is None:
+            raise AnchorLost('auto-setters: `%s` not found' % kv['impl'])
+        try:
+            shs, sbo, sbc = s.find_item('struct', kv['struct'])
+        except ScanError as e:
+            raise AnchorLost(str(e))
+        fields = dict((m.group(1), m.group(2).strip().rstrip(',')) for m in re.finditer(r'(?m)^\s*(?:pub(?:\([a-z]+\))?\s+)?(\w+)\s*:\s*([^\n]+?),?\s*$', strip_attrs(s.text[sbo + 1:sbc])))
+        skip = set(x.strip() for x in kv.get('except', '').split(',') if x.strip())
+        names = [m.group(1) for m in re.finditer(r'\bfn\s+(\w+)', s.text[impl[0]:impl[1]]) if s.depth_at(impl[0] + m.start(), impl[0]) == 1]
+        for name in names:
+            if name in skip:
+                continue
+            hs, bo, bc = s._find_fn_in(impl[0], impl[1], name)
+            sig = norm(s.text[hs:bo])
+            body = s.text[bo + 1:bc]
+            label = '%s::%s' % (kv.get('label', kv['struct']), name)
+            if not re.fullmatch(r'(pub(\([a-z]+\))? )?fn %s\(&mut self\)' % re.escape(name), sig):
+                raise AnchorLost('%s: a method without contract that is not a plain setter (`%s`)' % (label, sig))
+            env, req = {}, []
+            for stmt in [x.strip() for x in re.sub(r'//[^\n]*', '', body).split(';') if x.strip()]:
+                m = re.fullmatch(r'self\.(\w+)\s*(\+=|-=|=)\s*([\w\s.+\-*]+)', stmt)
+                if not m or m.group(1) not in fields:
+                    raise AnchorLost('%s: a method without contract that is not a plain setter (`%s`)' % (label, stmt[:50]))
+                f, op, rhs = m.group(1), m.group(2), m.group(3).strip()
+                cur = lambda g: env.get(g, 'old(self).%s' % g)
+                rhs_spec = re.sub(r'self\.(\w+)', lambda mm: '(%s)' % cur(mm.group(1)), rhs)
+                if op == '=':
+                    env[f] = rhs_spec
+                else:
+                    new_ = '(%s) %s (%s)' % (cur(f), op[0], rhs_spec)
+                    ty = fields[f]
+                    req.append('%s::MIN <= %s <= %s::MAX' % (ty, new_, ty))
+                    env[f] = new_
+            ens = ['final(self).%s == %s' % (f, (e if f in env else 'old(self).%s' % f)) for f, e in [(f, env.get(f)) for f in fields]]
+            start_out = len(self.out_lines) + 1
+            self.emit('// ---- extracted fn %s from %s:%d-%d (contract derived from its text: rule E7)' % (label, kv['file'], s.line_of(hs), s.line_of(bc)))
+            self.emit('fn %s(&mut self)' % name)
+            if req:
+                self.emit('    requires ' + ', '.join(req) + ',')
+            self.emit('    ensures ' + ', '.join(ens) + ',')
+            body_out_start = len(self.out_lines) + 1
+            self.emit(s.text[bo:bc + 1])
+            self.fn_ranges.append((start_out, len(self.out_lines), label, kv['file'], s.line_of(hs), body_out_start))
+            self.functions.append({'fn': label, 'file': kv['file'], 'src_lines': [s.line_of(hs), s.line_of(bc)], 'arm': None, 'clauses': [], 'rules': [['E7-auto-setter', 1]]})
+            self.rules_fired['E7'] = self.rules_fired.get('E7', 0) + 1
+
     def do_fn(self, kv, sections):
         s = self.src(kv['file'], kv.get('within'))
         try:
@@ -269,6 +327,31 @@ class Expander:
                 body_text = '{' + prefix_text + inner + '\n}'
             src_lines = [s.line_of(cur_s), s.line_of(cur_e - 1)]
             body_src_off = cur_s
+        elif any(k.startswith('arm-call ~') for k in sections):
+            # rule E3e: the dispatching `match` of the function is kept with every pattern (and guard) verbatim; each arm's body is
+            # replaced by the call given in the template (to the function the arm's body was emitted as, rule E3).  What is
+            # checked is the dispatch: every arm must establish the precondition of the slice that was proved for it.
+            calls = {k[len('arm-call ~'):]: ' '.join(x.strip() for x in v) for k, v in sections.items() if k.startswith('arm-call ~')}
+            cands = [m.start() for m in s.find_code(r'\bmatch\b', bo, bc + 1) if s.depth_at(m.start(), bo) == 1]
+            if not cands:
+                raise AnchorLost('%s: no dispatching match' % label)
+            mk = cands[0]
+            scrut, mo, mc, arms = s.match_arms(mk)
+            out, used = [], set()
+            for (ps, pe, bs, be, is_block) in arms:
+                ptxt = re.sub(r'\s+', ' ', s.text[ps:pe]).strip()
+                hit = [c for c in calls if ptxt.startswith(c)]
+                if not hit:
+                    raise AnchorLost('%s: arm `%s` has no slice (new arm?)' % (label, ptxt[:60]))
+                c = max(hit, key=len)
+                used.add(c)
+                out.append('%s => { %s }' % (s.text[ps:pe].strip(), calls[c]))
+            if used != set(calls):
+                raise AnchorLost('%s: arms %s are gone' % (label, sorted(set(calls) - used)))
+            arm_desc = 'dispatch of `match %s`' % scrut
+            body_text = '{' + s.text[bo + 1:mk] + s.text[mk:mo + 1] + '\n' + ',\n'.join(out) + '\n}' + s.text[mc + 1:bc] + '}'
+            src_lines = [s.line_of(hs), s.line_of(bc)]
+            body_src_off = bo
         elif 'body-of-loop' in sections:
             # rule E3c: the body of the n-th loop of the function (source order) is emitted as a function of its own: the
             # parameters (given by `sig:`) are the loop's pattern bindings and the variables the body uses; `tail:` is what
@@ -636,6 +719,10 @@ class Expander:
             if st.startswith('//@define'):
                 k, v = st[len('//@define'):].strip().split(' ', 1)
                 self.defines[k] = v.strip()
+                i += 1
+                continue
+            if st.startswith('//@auto-setters'):
+                self.do_auto_setters(parse_kv(st[len('//@auto-setters'):]))
                 i += 1
                 continue
             if st.startswith('//@item'):
